@@ -17,10 +17,9 @@ import (
 )
 
 const (
-	sigFloat = "size-above-2p53-not-representable"
+	sigFloat = "size-unit-product-above-2p53-inexact" // residual of the repaired size-above-2p53-not-representable
 	sigToml  = "sizev2-above-maxint64-unreadable-from-toml"
 	sigWrap  = "duration-sum-wraps-at-2p64"
-	sigNL    = "ssizev1-bare-suffix-after-newline-is-decimal"
 )
 
 var typeNames = []string{"SizeV1", "SSizeV1", "SizeV2", "SSizeV2", "Duration"}
@@ -228,8 +227,8 @@ func runRt(w *vh.W, c *jcase) {
 	switch {
 	case c.Via && c.Type == "SizeV2" && z.Cmp(two63) >= 0:
 		sig = sigToml
-	case v2 && notRepr(z):
-		sig = sigFloat
+	case v2 && notRepr(z): // former finding size-above-2p53-not-representable (fixed): no longer tolerated
+		w.Count("former_finding_shape", "rt value above 2^53 needing more than 53 bits")
 	}
 	w.Add(fmt.Sprintf("CRt %s %s %s %s %s", typeTerms[c.Type], vh.Bool(c.Via), zterm(z), vh.Bytes(text), optZ(c.Back)), c, z.Sign() != 0, sig)
 	w.Count("kind", "rt "+c.Type+map[bool]string{false: " text", true: " toml"}[c.Via])
@@ -322,6 +321,18 @@ func newlineShape(ty string, text []byte) bool {
 	return m != nil && bytes.IndexByte(m[1], '\n') >= 0
 }
 
+var plainUnsignedRe = regexp.MustCompile(`\A[0-9]+\z`)
+var plainSignedRe = regexp.MustCompile(`\A-?[0-9]+\z`)
+
+// texts that the repaired parseBytesUnsigned / parseBytesSigned (or the SizeV1 strconv fast
+// path) parse exactly with strconv: a plain decimal integer
+func exactPath(ty string, text []byte) bool {
+	if ty == "SizeV2" || ty == "SizeV1" {
+		return plainUnsignedRe.Match(text)
+	}
+	return plainSignedRe.Match(bytes.TrimSpace(text))
+}
+
 func runParse(w *vh.W, c *jcase) {
 	text := bytesOf(c.Text)
 	c.Quoted = strconv.Quote(string(text))
@@ -331,10 +342,17 @@ func runParse(w *vh.W, c *jcase) {
 		if wrapShape(text) {
 			sig = sigWrap
 		}
-	} else if newlineShape(c.Type, text) {
-		sig = sigNL
-	} else if floatShape(text) {
-		sig = sigFloat
+	} else {
+		if newlineShape(c.Type, text) { // former finding ssizev1-bare-suffix-after-newline-is-decimal (fixed)
+			w.Count("former_finding_shape", "SSizeV1 bare suffix after leading newline")
+		}
+		if floatShape(text) {
+			if exactPath(c.Type, text) { // plain integers are parsed by strconv since the repair: not tolerated
+				w.Count("former_finding_shape", "plain integer above 2^53 needing more than 53 bits")
+			} else {
+				sig = sigFloat
+			}
+		}
 	}
 	w.Add(fmt.Sprintf("CParse %s %s %s", typeTerms[c.Type], vh.Bytes(text), optZ(c.Back)), c, c.Back != nil, sig)
 	w.Count("kind", "parse "+c.Type)
